@@ -232,6 +232,26 @@ def semantic_search(ctx, n_circ):
     return fails
 
 
+def entangle_measure_condition(ctx):
+    """directed: two-qubit gate, measurement of one of its qubits, block conditioned on the result (with and without else),
+    for both gates, both measured qubits, both condition values — the exact simulation carries branches outside the code
+    space (rounded KLM angles), which must not break the conditioned block"""
+    fails = []
+    for gate, meas, val, with_else, pre in itertools.product(("cx", "cz"), (0, 1), (0, 1), (False, True), ("h", "x")):
+        other = 1 - meas
+        ops = [("g", pre, (), (0,)), ("g", "h", (), (1,)), ("g", gate, (), (0, 1)), ("m", meas, meas),
+               ("if", meas, val, [("g", "x", (), (other,))], [("g", "ry", (0.7,), (other,))] if with_else else []),
+               ("g", "h", (), (other,))]
+        ctx.count(("emc", gate, meas, val, with_else, pre), nontrivial=True)
+        try:
+            msgs, tot = compare(2, ops, 2e-3)
+        except Exception as e:
+            fails.append((f"raise:{type(e).__name__}", f"supported circuit raised {type(e).__name__}: {str(e)[:160]}", {"n": 2, "ops": repr(ops)})); continue
+        if msgs:
+            fails.append(("statistics:conditional", msgs[0], {"n": 2, "ops": repr(ops), "all": msgs[:4]}))
+    return fails
+
+
 def sampling(ctx, n_circ):
     """shots mode: samples decode to qubit records in the support of the exact distribution"""
     from piquasso.dual_rail_encoding import get_bosonic_qubit_samples
@@ -289,7 +309,7 @@ def run(ctx):
         from pqv.core import CheckError
         raise CheckError(f"the independent gate matrices disagree with qiskit for {ob}")
     mism = encoder_correspondence(ctx, 40 if quick else 600)
-    fails = gate_blocks(ctx, 8 if quick else 200) + semantic_search(ctx, 70 if quick else 1500) + sampling(ctx, 8 if quick else 100)
+    fails = gate_blocks(ctx, 8 if quick else 200) + entangle_measure_condition(ctx) + semantic_search(ctx, 70 if quick else 1500) + sampling(ctx, 8 if quick else 100)
     seen = set()
     for key, msg, inp in fails:
         if key not in seen:
